@@ -134,7 +134,7 @@ class H2Peer:
         self.h2_error = False
         self.ws: Dict[int, Any] = {}  # websocket peers per stream (extended CONNECT)
         self.server_settings_seen = False
-        self.stalled: Dict[int, Tuple[Any, ...]] = {}  # uploads waiting for credit, per stream
+        self.stalled: Dict[int, List[Tuple[Any, ...]]] = {}  # uploads waiting for credit, per stream, in order
         self.ws_pending: Dict[int, bytearray] = {}
         self.feeding = False
         self.methods: Dict[int, str] = {}
@@ -252,7 +252,14 @@ class H2Peer:
                 # respect the server's flow-control and frame size like a real client
                 sent = 0
                 frame = int(st.get("frame", 0)) or None  # payload bytes per DATA frame (default: as large as allowed)
-                while sent < ln or (ln == 0 and sent == 0):
+                if self.stalled.get(sid):
+                    # the rest of an earlier write is still waiting for credit: this one queues behind it (a
+                    # stream's bytes leave in the order they were written)
+                    self.stalled[sid].append((sid, pid, off, ln, bool(st.get("end", False)), frame, st.get("pad")))
+                    after.append((rid, {"body_add": 0, "done": False}))
+                    after.append((rid, {"stall": self._stall_info(sid, sum(seg[3] for seg in self.stalled[sid]))}))
+                    ln = -1   # nothing more to do in this step
+                while ln >= 0 and (sent < ln or (ln == 0 and sent == 0)):
                     room = min(self.conn.local_flow_control_window(sid), self.conn.max_outbound_frame_size)
                     pad = st.get("pad")
                     if pad is not None and room < pad + 2:
@@ -268,9 +275,10 @@ class H2Peer:
                     sent += n
                     if ln == 0:
                         break
-                after.append((rid, {"body_add": sent, "done": bool(st.get("end", False)) and sent >= ln}))
-                if sent < ln:
-                    self.stalled[sid] = (sid, pid, off + sent, ln - sent, bool(st.get("end", False)), frame, st.get("pad"))
+                if ln >= 0:
+                    after.append((rid, {"body_add": sent, "done": bool(st.get("end", False)) and sent >= ln}))
+                if 0 <= sent < ln:
+                    self.stalled[sid] = [(sid, pid, off + sent, ln - sent, bool(st.get("end", False)), frame, st.get("pad"))]
                     after.append((rid, {"stall": self._stall_info(sid, ln - sent)}))
             elif op == "end":
                 sid = st["stream"]
@@ -482,34 +490,43 @@ class H2Peer:
         return {"left": left, "sw": sw, "cw": cw}
 
     def _resume_upload(self, sid: int) -> None:
-        sid, pid, off, left, end, frame, pad0 = self.stalled[sid]
         rid = self.rid_of.get(sid, "none")
-        sent = 0
+        total_sent = 0
+        done = False
+        segs = self.stalled[sid]
         try:
-            while sent < left:
-                room = min(self.conn.local_flow_control_window(sid), self.conn.max_outbound_frame_size)
-                pad = pad0
-                if pad is not None and room < pad + 2:
-                    pad = None
-                if pad is not None:
-                    room -= pad + 1
-                n = min(room, left - sent, frame or left)
-                if n <= 0:
+            while segs:
+                sid, pid, off, left, end, frame, pad0 = segs[0]
+                sent = 0
+                while sent < left:
+                    room = min(self.conn.local_flow_control_window(sid), self.conn.max_outbound_frame_size)
+                    pad = pad0
+                    if pad is not None and room < pad + 2:
+                        pad = None
+                    if pad is not None:
+                        room -= pad + 1
+                    n = min(room, left - sent, frame or left)
+                    if n <= 0:
+                        break
+                    last = sent + n >= left
+                    self.conn.send_data(sid, pat(pid, off + sent, n), end_stream=end and last, pad_length=pad)
+                    sent += n
+                total_sent += sent
+                if sent >= left:
+                    segs.pop(0)
+                    done = done or end
+                else:
+                    segs[0] = (sid, pid, off + sent, left - sent, end, frame, pad0)
                     break
-                last = sent + n >= left
-                self.conn.send_data(sid, pat(pid, off + sent, n), end_stream=end and last, pad_length=pad)
-                sent += n
         except h2.exceptions.H2Error:
             del self.stalled[sid]
             self.sess.trace.log("c_stall", app=rid, left=0, sw=-1, cw=-1)
             return
-        if sent >= left:
+        if not segs:
             del self.stalled[sid]
-        else:
-            self.stalled[sid] = (sid, pid, off + sent, left - sent, end, frame, pad0)
-        if sent:
-            self._log_progress(rid, sent, body_add=sent, done=end and sent >= left)
-            info = self._stall_info(sid, left - sent)
+        if total_sent:
+            self._log_progress(rid, total_sent, body_add=total_sent, done=done)
+            info = self._stall_info(sid, sum(seg[3] for seg in segs))
             self.sess.trace.log("c_stall", app=rid, **info)
 
     def ws_send(self, sid: int, data: bytes) -> bytes:
